@@ -3,7 +3,7 @@
    over the Section variables curated / word_id / raw_lints / ctx, which appear here as universally
    quantified parameters) and Model/LintJson.v (serde_json text of Span / Suggestion / Lint). *)
 From Coq Require Import String.
-Require Import Base Overlap Suggestion LintJson Wasm ListLemmas OverlapProofs SuggestionProofs WasmProofs LintJsonProofs.
+Require Import Base Overlap Suggestion LintJson Wasm ListLemmas OverlapProofs SuggestionProofs WasmProofs LintJsonProofs Tables_wasmapi WasmTables.
 From Coq Require Import List Sorting.Sorted Sorting.Permutation.
 
 (* lint, any state, any text: when the rules' lints lie inside the text (C03's business, monitored), the answer exists (no panic while slicing the problem text), every returned lint lies inside the text, is one of the rules' lints, carries exactly the characters at its span and the language of the call, and no two returned lints share a character (C13 lifted through the wrapper) *)
@@ -251,6 +251,70 @@ Proof. exact esc_char_no_control. Qed.
 Check C16_json_no_raw_control :
   forall c, Forall (fun x => (32 <= x)%N) (esc_char c).
 Print Assumptions C16_json_no_raw_control.
+
+(* tie to the source text (table regenerated from harper-wasm/src/lib.rs on every run): Linter::lint still does overlay, LintGroup::lint, restore, remove_overlaps, remove_ignored, problem text, in this order; import_words still synchronises only when the word count grew; synchronize_lint_dict, apply_suggestion (record first), import_ignored_lints (append), ignore_lint (lint's own language, the linter's dictionary) have the modelled shape *)
+Theorem C16_source_shape :
+  wasm_lint_pipeline = model_lint_pipeline
+  /\ wasm_import_words_init_len = "self.user_dictionary.word_count()"%string
+  /\ wasm_import_words_sync_condition = model_sync_condition
+  /\ wasm_synchronize_steps = model_synchronize_steps
+  /\ wasm_apply_suggestion_steps = ["push_record"; "apply_to_lint_span"]%string
+  /\ wasm_import_ignored_steps = ["append"]%string
+  /\ wasm_ignore_lint_steps = ["parser_of_lint_language"; "linter_dictionary"; "ignore_inner_on_document"]%string.
+Proof. exact wasm_source_shape. Qed.
+Check C16_source_shape :
+  wasm_lint_pipeline = model_lint_pipeline
+  /\ wasm_import_words_init_len = "self.user_dictionary.word_count()"%string
+  /\ wasm_import_words_sync_condition = model_sync_condition
+  /\ wasm_synchronize_steps = model_synchronize_steps
+  /\ wasm_apply_suggestion_steps = ["push_record"; "apply_to_lint_span"]%string
+  /\ wasm_import_ignored_steps = ["append"]%string
+  /\ wasm_ignore_lint_steps = ["parser_of_lint_language"; "linter_dictionary"; "ignore_inner_on_document"]%string.
+Print Assumptions C16_source_shape.
+
+(* ... and the types serde derives the JSON from still have the variants / fields the printers write, with no #[serde(..)] attribute *)
+Theorem C16_serde_shape :
+  lint_kind_variants = map kind_name all_kinds
+  /\ language_variants = [lang_name Plain; lang_name Markdown]
+  /\ suggestion_variants = ["ReplaceWith"; "InsertAfter"; "Remove"]%string
+  /\ core_lint_fields = ["span"; "lint_kind"; "suggestions"; "message"; "priority"]%string
+  /\ core_span_fields = ["start"; "end"]%string /\ wasm_span_fields = ["start"; "end"]%string
+  /\ wasm_lint_fields = ["inner"; "problem_text"; "language"]%string
+  /\ wasm_suggestion_fields = ["inner"]%string
+  /\ ignored_lints_fields = ["context_hashes"]%string
+  /\ serde_attributes_on_these_types = [].
+Proof. exact wasm_serde_shape. Qed.
+Check C16_serde_shape :
+  lint_kind_variants = map kind_name all_kinds
+  /\ language_variants = [lang_name Plain; lang_name Markdown]
+  /\ suggestion_variants = ["ReplaceWith"; "InsertAfter"; "Remove"]%string
+  /\ core_lint_fields = ["span"; "lint_kind"; "suggestions"; "message"; "priority"]%string
+  /\ core_span_fields = ["start"; "end"]%string /\ wasm_span_fields = ["start"; "end"]%string
+  /\ wasm_lint_fields = ["inner"; "problem_text"; "language"]%string
+  /\ wasm_suggestion_fields = ["inner"]%string
+  /\ ignored_lints_fields = ["context_hashes"]%string
+  /\ serde_attributes_on_these_types = [].
+Print Assumptions C16_serde_shape.
+
+(* the configuration the rules see during lint (fill_with_curated over a clone, restored afterwards): the user's explicit true/false wins, a null or absent entry falls back to the curated default *)
+Theorem C16_config_overlay :
+  forall (curated c : config) k, amap_sorted c -> aget k (cfg_fill_with_curated curated c) = match aget k c with Some (Some v) => Some (Some v) | _ => aget k curated end.
+Proof. exact config_overlay. Qed.
+Check C16_config_overlay :
+  forall (curated c : config) k, amap_sorted c -> aget k (cfg_fill_with_curated curated c) = match aget k c with Some (Some v) => Some (Some v) | _ => aget k curated end.
+Print Assumptions C16_config_overlay.
+
+(* synchronize_lint_dict (run by import_words) rebuilds the LintGroup and re-merges the saved configuration: in every history that starts with Linter::new the configuration after import_words is the configuration before *)
+Theorem C16_import_words_keeps_config :
+  forall (curated : config) (word_id : text -> N) (raw_lints : text -> language -> config -> dict -> nat -> list rlint) (ctx : rlint -> text -> language -> dict -> N) dia cs ws, amap_sorted curated ->
+  let st := fst (run curated word_id raw_lints ctx (new curated dia) cs) in
+  s_cfg (import_words curated word_id st ws) = s_cfg st.
+Proof. exact import_words_keeps_config. Qed.
+Check C16_import_words_keeps_config :
+  forall (curated : config) (word_id : text -> N) (raw_lints : text -> language -> config -> dict -> nat -> list rlint) (ctx : rlint -> text -> language -> dict -> N) dia cs ws, amap_sorted curated ->
+  let st := fst (run curated word_id raw_lints ctx (new curated dia) cs) in
+  s_cfg (import_words curated word_id st ws) = s_cfg st.
+Print Assumptions C16_import_words_keeps_config.
 
 (* ---------- non-vacuity: the hypotheses are satisfiable on non-trivial inputs ---------- *)
 Definition ex_raw (t : text) (lg : language) (c : config) (d : dict) (n : nat) : list rlint :=
